@@ -14,12 +14,12 @@ T = {
     'pod12': 'sim::Pod<12>', 'pod5': 'sim::Pod<5>',
     'trk9': 'sim::Tracked<9>', 'trk12': 'sim::Tracked<12>', 'trk24': 'sim::Tracked<24>',
     'mo9': 'sim::TrackedMO<9>', 'mo12': 'sim::TrackedMO<12>', 'thr9': 'sim::TrackedThrow<9>', 'thr12': 'sim::TrackedThrow<12>',
-    'str': 'std::string', 'up': 'std::unique_ptr<int>', 'pr': 'std::pair<std::uint32_t, std::uint32_t>', 'sp12': 'sim::SelfPtr<12>', 'sp13': 'sim::SelfPtr<13>', 'cc12': 'sim::CopyCounted<12>', 'cc5': 'sim::CopyCounted<5>',
+    'str': 'std::string', 'up': 'std::unique_ptr<int>', 'pr': 'std::pair<std::uint32_t, std::uint32_t>', 'sp12': 'sim::SelfPtr<12>', 'sp13': 'sim::SelfPtr<13>', 'cc12': 'sim::CopyCounted<12>', 'cc5': 'sim::CopyCounted<5>', 'st9': 'sim::Sticky<9>', 'st12': 'sim::Sticky<12>',
 }
 SIZEOF = {'u8': 1, 'u16': 2, 'u32': 4, 'u64': 8, 'i32': 4, 'ch': 1, 'by': 1, 'f32': 4, 'f64': 8, 'ptr': 8, 'sz': 8,
-          'pod12': 12, 'pod5': 5, 'trk9': 9, 'trk12': 12, 'trk24': 24, 'mo9': 9, 'mo12': 12, 'thr9': 9, 'thr12': 12, 'str': 32, 'up': 8, 'pr': 8, 'sp12': 12, 'sp13': 13, 'cc12': 12, 'cc5': 5}
+          'pod12': 12, 'pod5': 5, 'trk9': 9, 'trk12': 12, 'trk24': 24, 'mo9': 9, 'mo12': 12, 'thr9': 9, 'thr12': 12, 'str': 32, 'up': 8, 'pr': 8, 'sp12': 12, 'sp13': 13, 'cc12': 12, 'cc5': 5, 'st9': 9, 'st12': 12}
 INTEGRAL = {'u8', 'u16', 'u32', 'u64', 'sz'}
-NONTRIVIAL = {'trk9', 'trk12', 'trk24', 'mo9', 'mo12', 'thr9', 'thr12', 'str', 'up', 'sp12', 'sp13', 'cc12', 'cc5'}
+NONTRIVIAL = {'trk9', 'trk12', 'trk24', 'mo9', 'mo12', 'thr9', 'thr12', 'str', 'up', 'sp12', 'sp13', 'cc12', 'cc5', 'st9', 'st12'}
 TRACKED = {'trk9', 'trk12', 'trk24', 'mo9', 'mo12', 'thr9', 'thr12'}
 MOVEONLY = {'mo9', 'mo12', 'up'}
 REAL = {'str', 'up'}
@@ -152,6 +152,8 @@ def curated():
     # realistic non-trivial value types (ASan is the lifetime oracle there)
     a(make('str_fx', [P('f', 'str'), P('p', 'str')], 'ae'))
     a(make('str_var', [P('p', 'sz', 8), P('v', 'str'), P('p', 'str')], 'none'))
+    a(make('str_mix', [P('p', 'u32'), P('v', 'str'), P('f', 'ch')], 'none'))
+    a(make('up_mix', [P('f', 'u8'), P('p', 'u16'), P('v', 'up')], 'ae'))
     a(make('up_fx', [P('f', 'up'), P('p', 'up')], 'ae'))
     a(make('up_var', [P('p', 'sz', 8), P('v', 'up'), P('p', 'up')], 'none'))
     # value types whose copy constructor may throw (fault kind F10, armed only while copies of shared objects are made)
@@ -167,6 +169,10 @@ def curated():
     a(make('cc_fx', [P('p', 'u32'), P('f', 'cc12')], 'none'))
     a(make('cc_var', [P('p', 'u32'), P('v', 'cc12'), P('p', 'cc5')], 'all'))
     a(make('cc_only', [P('f', 'cc5', 4)], 'ae'))
+    # trivially constructible/destructible, user-provided assignment that is not a byte copy, no ADL swap
+    a(make('st_pl', [P('p', 'u32'), P('p', 'st9'), P('p', 'f32')], 'none'))
+    a(make('st_fx', [P('f', 'st12'), P('p', 'u16'), P('p', 'st9')], 'ae'))
+    a(make('st_var', [P('p', 'u8'), P('v', 'st9'), P('p', 'st12', 4)], 'noned'))
     a(make('pr_fx_trk', [P('f', 'pr'), P('p', 'trk9')], 'none'))
     a(make('pr_str', [P('p', 'pr'), P('f', 'str')], 'ae'))
     a(make('pr_var_trk', [P('p', 'u32'), P('v', 'pr'), P('p', 'trk12'), P('p', 'pr')], 'noned'))
